@@ -16,6 +16,7 @@ import (
 
 	"github.com/pion/transport/v3/dpipe"
 	"github.com/pion/transport/v3/test"
+	"verifharness/internal/gstate"
 	"verifharness/internal/res"
 )
 
@@ -44,6 +45,48 @@ func fill(n int, seed uint32) []byte {
 }
 
 // ---------------- dpipe ----------------
+
+// readWatched performs a Read that the model says cannot block (a message is waiting, or the end is closed). If it has
+// not returned after 2 s and its goroutine is parked inside dpipe's Read in three consecutive samples, it is reported
+// as blocked (a state predicate, not the clock, decides).
+func readWatched(c net.Conn, dst []byte) (int, error, bool) {
+	type rr struct {
+		n   int
+		err error
+	}
+	ch := make(chan rr, 1)
+	idc := make(chan int64, 1)
+	go func() {
+		idc <- gstate.GoID()
+		n, err := c.Read(dst)
+		ch <- rr{n, err}
+	}()
+	id := <-idc
+	for {
+		select {
+		case x := <-ch:
+			return x.n, x.err, false
+		case <-time.After(2 * time.Second):
+		}
+		parked := 0
+		for k := 0; k < 3; k++ {
+			for _, g := range gstate.Snapshot() {
+				if g.ID == id && gstate.Blocked(g.State) && g.Has("dpipe.(*conn).Read") {
+					parked++
+				}
+			}
+			time.Sleep(2 * time.Millisecond)
+		}
+		if parked == 3 {
+			select {
+			case x := <-ch:
+				return x.n, x.err, false
+			default:
+			}
+			return 0, nil, true
+		}
+	}
+}
 
 func runDpipe(s *script, r *res.Result) (string, string, int) {
 	c0, c1 := dpipe.Pipe()
@@ -84,7 +127,12 @@ func runDpipe(s *script, r *res.Result) (string, string, int) {
 				arr[j] = 0x5A
 			}
 			dst := arr[:o.N:o.N]
-			n, err := ends[e].Read(dst)
+			n, err, blocked := readWatched(ends[e], dst)
+			if blocked {
+				ends[0].Close()
+				ends[1].Close()
+				return "dpipe:read-blocked", fmt.Sprintf("op %d: Read on end %d is parked inside dpipe (3 samples after 2 s) although %d message(s) written earlier are waiting for it (closed: %v, peer closed: %v): a written message never arrives", i, e, len(q[e]), closed[e], closed[1-e]), i
+			}
 			r.Count("dpipe_reads", 1)
 			if closed[e] {
 				if err != io.EOF {
@@ -479,7 +527,7 @@ func main() {
 			}
 			r.Sample(c)
 		}
-		if seen["bridge:missing-message"]+seen["bridge:extra-message"] >= 3 {
+		if seen["bridge:missing-message"]+seen["bridge:extra-message"] >= 3 || seen["dpipe:read-blocked"] >= 3 {
 			break // every script with a missing message costs a 2 s wait; three witnesses are enough
 		}
 		if i%4 == 3 {
